@@ -129,6 +129,8 @@ class LoopTranslator:
                 return ("true" if e.value else "false"), "Bool"
             if isinstance(e.value, int):
                 return f"({e.value} : Int)", "Int"
+            if isinstance(e.value, float) and self.float_ty == "F" and e.value == int(e.value):
+                return f"(FVal.ofInt ({int(e.value)} : Int))", "F"
             raise TranslateError(f"{self.fname}: unsupported constant {e.value!r}")
         if isinstance(e, ast.Attribute) and isinstance(e.value, ast.Name) and e.value.id == "np" and e.attr == "nan":
             return ("FVal.nan", "F") if self.float_ty == "F" else ("Val.nan", "Val")
@@ -535,9 +537,20 @@ class LoopTranslator:
                 continue
             if isinstance(s, ast.Pass):
                 continue
+            if isinstance(s, ast.Assign) and len(s.targets) > 1:
+                # a = b[i] = e : the value is computed once and stored into the targets from left to right
+                if not all(isinstance(t, (ast.Name, ast.Subscript)) for t in s.targets):
+                    raise TranslateError(f"{self.fname}: chained assignment shape")
+                v, t = self.expr(cx, s.value)
+                tmp = cx.fresh("v")
+                cx.lets.append(f"let {tmp} : {lean_ty(t)} := {v}")
+                for tg in s.targets:
+                    if isinstance(tg, ast.Name):
+                        self.assign_name(cx, tg.id, tmp, t)
+                    else:
+                        self.assign_sub(cx, tg, tmp, t)
+                continue
             if isinstance(s, ast.Assign):
-                if len(s.targets) != 1:
-                    raise TranslateError(f"{self.fname}: chained assignment")
                 tgt = s.targets[0]
                 if isinstance(tgt, ast.Tuple) and isinstance(s.value, ast.Tuple) and len(tgt.elts) == len(s.value.elts) \
                         and all(isinstance(t, ast.Name) for t in tgt.elts):
@@ -1178,6 +1191,8 @@ LOOPS = {
                              "min_periods": "OptInt", "mask": "OptA(Bool)", "null_value": "Val", "want_mean": "Bool"}),
     "ema_adjusted": ("emas", "_ema_adjusted",
                      {"arr": "A(F)", "alpha": "F", "local:residual": "F", "local:residual_weights": "F"}, "F"),
+    "ema_time_weighted": ("emas", "_ema_time_weighted",
+                          {"arr": "A(F)", "times": "A(Int)", "halflife": "Int", "local:residual": "F", "local:residual_weights": "F"}, "F"),
     "ema_grouped": ("emas", "_ema_grouped",
                     {"group_key": "A(Int)", "values": "A(F)", "alpha": "F", "ngroups": "Int", "mask": "OptA(Bool)"}, "F"),
     "ema_grouped_timed": ("emas", "_ema_grouped_timed",
